@@ -13,6 +13,7 @@ import (
 
 	"github.com/hashicorp/nodeenrollment"
 	"github.com/hashicorp/nodeenrollment/protocol"
+	"github.com/hashicorp/nodeenrollment/util/verifhook"
 )
 
 const (
@@ -278,6 +279,7 @@ func (l *MultiplexingListener) Addr() net.Addr {
 // we're no longer accepting them.
 func (l *MultiplexingListener) Close() error {
 	l.drainConnections()
+	verifhook.Point("mux.close.lock")
 	l.closedMutex.Lock()
 	l.closed = true
 	l.closedOnce.Do(func() { close(l.incoming) })
@@ -289,6 +291,7 @@ func (l *MultiplexingListener) Close() error {
 // that has been sent to this listener, or net.ErrClosed if the listener has
 // been closed.
 func (l *MultiplexingListener) Accept() (net.Conn, error) {
+	verifhook.Point("mux.accept.wait")
 	select {
 	case <-l.ctx.Done():
 		// If Close() was called this would happen anyways, but in case it
@@ -302,6 +305,7 @@ func (l *MultiplexingListener) Accept() (net.Conn, error) {
 			// Channel has been closed
 			return nil, net.ErrClosed
 		}
+		verifhook.Point("mux.accept.received")
 
 		select {
 		case <-l.ctx.Done():
@@ -376,6 +380,7 @@ func (l *MultiplexingListener) IngressConn(conn net.Conn, err error) {
 		conn.Close()
 		return
 	}
+	verifhook.Point("mux.ingress.send")
 	l.incoming <- splitConn{conn: conn, err: err}
 }
 
